@@ -39,10 +39,28 @@ def histories(ctx):
         m = molgen.embedded(smi, nconf=3, seed=5, keep_hs=True)
         if m is not None:
             mols.append((smi, molfacts.gridded(m)))
-    for hno in range(ctx.n(20, 300)):
+    nsmall = len(mols)
+    # flexible shipped molecules: their conformers stop at different levels, which is what stale per-level state needs
+    from rdkit import Chem
+    for name, m in molgen.shipped():
+        if m.GetNumConformers() >= 6:
+            mm = Chem.Mol(m)
+            for c in list(mm.GetConformers())[8:]:
+                mm.RemoveConformer(c.GetId())
+            mols.append((name, molfacts.gridded(mm)))
+    unstable_cache = {}
+
+    def unstable(mi, cid, o):
+        key = (mi, cid, json.dumps(m1lib.opts_json(o), sort_keys=True))
+        if key not in unstable_cache:
+            unstable_cache[key] = m1lib.is_unstable(mols[mi][1], cid, o)
+        return unstable_cache[key]
+    for hno in range(ctx.n(24, 300)):
         o = molgen.rand_opts(rng)
-        if any(m1lib.is_unstable(m, c.GetId(), o) for _, m in mols for c in m.GetConformers()):
-            continue
+        big = hno % 3 == 0 and len(mols) > nsmall
+        if big:
+            o = dict(o, level=rng.choice([4, 5, 6]), mult=rng.choice([1.5, 1.718, 2.0]), remdup=True)
+        tie_ok = True
         before = mutable_defaults()
         f = Fingerprinter(level=o['level'], radius_multiplier=o['mult'], stereo=o['stereo'], include_disconnected=o['incl'],
                           rdkit_invariants=o['rdkit'], exclude_floating=o['exfloat'], remove_duplicate_substructs=o['remdup'])
@@ -50,9 +68,12 @@ def histories(ctx):
         last_conf = None
         stats['histories'] += 1
         for step in range(rng.choice([2, 3, 4, 6]) if ctx.quick else rng.choice([2, 4, 8, 12])):
-            mi = rng.randrange(len(mols))
+            if step > 0 and rng.random() < 0.6:
+                pass                  # stay on the same molecule object (another conformer): only conformer-level state may be reused
+            else:
+                mi = rng.randrange(nsmall, len(mols)) if big and rng.random() < 0.8 else rng.randrange(nsmall)
             smi, m = mols[mi]
-            cid = rng.randrange(m.GetNumConformers())
+            cid = rng.choice([c.GetId() for c in m.GetConformers()])
             how = rng.choice(['conf_obj', 'conf_obj', 'int_id', 'same_obj', 'mol_none'])
             if how == 'same_obj' and last_conf is not None:
                 mi, m, cid, confobj = last_conf
@@ -76,6 +97,7 @@ def histories(ctx):
                 stats['queries_between'] += 1
             got = (int(f.current_level), molfacts.observe(f))
             want = fresh(m, cid, o)
+            tie_ok = tie_ok and not unstable(mi, cid, o)
             hist_json.append({'mol': smi, 'conf': cid, 'how': how})
             # identity token: GetOwningMol() builds a new Python object each time, so `mol is self.mol` is False there
             ident = mi if how != 'mol_none' else 1000 + step
@@ -88,8 +110,10 @@ def histories(ctx):
                 break
         else:
             key = 'hist%d' % hno
-            cases.append((key, 'check_history %s %s %s %s' % (molfacts.opts_lit(o), core.listlit(hist_lit), core.zlit(got[0]), molfacts.levels_lit(got[1], got[0]))))
+            if tie_ok:
+                cases.append((key, 'check_history %s %s %s %s' % (molfacts.opts_lit(o), core.listlit(hist_lit), core.zlit(got[0]), molfacts.levels_lit(got[1], got[0]))))
             payloads[key] = {'opts': m1lib.opts_json(o), 'history': hist_json}
+            stats['tie_skipped_unstable'] = stats.get('tie_skipped_unstable', 0) + (0 if tie_ok else 1)
         if mutable_defaults() != before:
             found = True
             ctx.fail('a mutable default argument was modified during a history', {'before': before, 'after': mutable_defaults()}, finding_key='C04:mutable-default')
